@@ -1,11 +1,14 @@
 #!/bin/bash
-# usage: harness/reapply.sh <seeded-name>...   -- apply seeded/<name>/patch.diff to /repo, run that property's check, restore /repo
-cd /verif
+# usage: harness/reapply.sh <seeded-name>...   -- apply seeded/<name>/patch.diff to the repository, run that property's check, restore it
+# BHW_REPO (default /repo) names the repository copy to use; VERIF_DIR (default: the directory above this script) the framework copy.
+REPO=${BHW_REPO:-/repo}
+VERIF_DIR=${VERIF_DIR:-$(cd "$(dirname "$0")/.." && pwd)}
+cd $VERIF_DIR
 for name in "$@"; do
   prop=$(python3 -c "import json;print(json.load(open('seeded/$name/meta.json'))['property'])")
-  if ! git -C /repo apply /verif/seeded/$name/patch.diff; then echo "$name: patch does not apply"; continue; fi
+  if ! git -C $REPO apply $VERIF_DIR/seeded/$name/patch.diff; then echo "$name: patch does not apply"; continue; fi
   out=$(VERIF_NO_EVIDENCE=1 timeout 1500 ./check $prop --tier ${TIER:-quick} 2>&1 | grep -E "^(VIOLATION|OK|KNOWN)" | cut -c1-200 | tr '\n' '|')
-  git -C /repo checkout -- .
+  git -C $REPO checkout -- .
   echo "$name: $out"
 done
-git -C /repo status --short | head
+git -C $REPO status --short | head
